@@ -86,9 +86,17 @@ func raceScenario(rng *rand.Rand, sc Scenario) {
 	banAddr := func(r *rand.Rand) string {
 		return []string{"203.0.113.7:8333", "203.0.113.8:8333", "[2001:db8::7]:8333"}[r.Intn(3)]
 	}
-	user(func(r *rand.Rand) { cs.BanPeer(banAddr(r), banman.ExceededBanThreshold) })
-	user(func(r *rand.Rand) { cs.IsBanned(banAddr(r)) })
-	user(func(r *rand.Rand) { cs.IsBanned(banAddr(r)); cs.IsBanned(banAddr(r)) })
+	// (every such call is a write transaction on the database the header stores use as well: paced, so that
+	// the sync itself is not starved)
+	user(func(r *rand.Rand) {
+		cs.BanPeer(banAddr(r), banman.ExceededBanThreshold)
+		time.Sleep(4 * time.Millisecond)
+	})
+	user(func(r *rand.Rand) {
+		cs.IsBanned(banAddr(r))
+		cs.IsBanned(banAddr(r))
+		time.Sleep(2 * time.Millisecond)
+	})
 	user(func(r *rand.Rand) {
 		b := pick(r)
 		if bs, err := cs.BestBlock(); err != nil || bs.Height < b.Height+3 {
